@@ -346,7 +346,11 @@ def scenario_chan(rng):
             out.append(f"sub {s} {C}" + rng.choice(["", "", " mode=JR", " mode=JRP", " priv=pvR"]))
     pub(owner)
     steps = [lambda: pub(owner), lambda: pub(sub_s), lambda: out.append(f"pub S2 {C} CX"),
+             lambda: out.append(f"note {rng.choice(['S2', 'S3', 'S7'])} {C} {rng.choice(['read', 'recv', 'recv'])} {1 + rng.below(max(1, n[0]))}"),
              lambda: out.append(f"note {rng.choice(['S2', 'S3', 'S7'])} {C} {rng.choice(['read', 'recv'])} {max(1, n[0])}"),
+             # received up to the end, then read up to somewhere before it (and the other way round)
+             lambda: (lambda r: out.extend([f"note {r} {C} recv {max(1, n[0])}", f"note {r} {C} read {1 + rng.below(max(1, n[0]))}",
+                                            f"get {r} {C} sub"]))(rng.choice(['S2', 'S3', 'S7'])),
              lambda: out.append(f"note {rng.choice([owner, sub_s])} {T} {rng.choice(['read', 'recv', 'kp'])} {rng.choice([0, max(1, n[0])])}"),
              lambda: out.append(f"get {rng.choice(['S2', 'S3', 'S5', 'S7'])} {C} {rng.choice(['data', 'desc', 'sub', 'del'])}"),
              lambda: out.append(f"get {rng.choice([owner, sub_s])} {T} {rng.choice(['data', 'desc', 'sub'])}"),
